@@ -2,7 +2,7 @@
 arms (not against the standard: that is C04), code tables paired with their biases, unsigned sinks,
 unit discipline, the signature accumulator and the CBLOCK buffer typestate."""
 import re
-from .. import oasfields as O, tables, clone, tagunion, linear, dims
+from .. import oasfields as O, tables, clone, tagunion, linear, dims, minieval
 from ..facts import AnalysisBroken
 from ..flow import lvalue_key, is_assign, _strip_casts
 from .C04 import reader_switch, writer_regions
@@ -355,18 +355,30 @@ def reader_rep_fields(stmts, label):
             return
         if s.k == 'IfStmt':
             c = norm(s.child('cond').text())
-            m = re.fullmatch(r'\(type == (\d+)\)', c)
-            if m:
-                if int(m.group(1)) == label:
-                    visit(s.child('then'), in_loop)
-                elif s.child('else') is not None:
-                    visit(s.child('else'), in_loop)
-                return
-            raise AnalysisBroken('oasis_read_repetition: unclassified condition %s' % c)
+            # a condition over the type code alone is decided for this arm's code
+            try:
+                taken = bool(minieval.Mini(None).ev(s.child('cond'), {'type': label}))
+            except AnalysisBroken:
+                raise AnalysisBroken('oasis_read_repetition: unclassified condition %s' % c)
+            if taken:
+                visit(s.child('then'), in_loop)
+            elif s.child('else') is not None:
+                visit(s.child('else'), in_loop)
+            return
         if is_assign(s):
             l = norm(s.child('lhs').text())
             if l == 'repetition.type':
-                kind = norm(s.child('rhs').text()).split('::')[-1]
+                rhs = _strip_casts(s.child('rhs'))
+                while rhs is not None and rhs.k in ('ConditionalOperator', 'ParenExpr'):
+                    if rhs.k == 'ParenExpr':
+                        rhs = _strip_casts(rhs.c[0])
+                        continue
+                    try:
+                        tk = bool(minieval.Mini(None).ev(rhs.child('cond'), {'type': label}))
+                    except AnalysisBroken:
+                        raise AnalysisBroken('oasis_read_repetition: repetition kind chosen by `%s`' % norm(rhs.child('cond').text()))
+                    rhs = _strip_casts(rhs.child('then') if tk else rhs.child('else'))
+                kind = norm(rhs.text()).split('::')[-1]
         if s.k == 'CallExpr' and s.callee in O.READ_CODEC:
             codec = O.READ_CODEC[s.callee]
             bias = 0
@@ -932,11 +944,21 @@ def check_validator(ctx, db):
         if i.k == 'IfStmt':
             m = re.fullmatch(r'\(file_sum\[0\] == (\d+)\)', tx(i.child('cond')))
             if m:
-                sig = next((x for x in i.child('then').walk() if x.k == 'VarDecl' and x.n == 'sig'), None)
+                # the arm's path: its own statements and, when it falls out of the chain, the statements after the chain
+                root = i
+                while root.parent is not None and root.parent.k == 'IfStmt' and root.parent.child('else') is root:
+                    root = root.parent
+                scope = list(i.child('then').walk())
+                if not tables._always_leaves(i.child('then')) and root.parent is not None and root in root.parent.c:
+                    for t_ in root.parent.c[root.parent.c.index(root) + 1:]:
+                        if t_ is not None:
+                            scope += list(t_.walk())
+                first = next((x for x in scope if (x.k == 'VarDecl' and x.n == 'sig' and x.child('init') is not None) or (is_assign(x) and norm(x.child('lhs').text()) == 'sig')), None)
+                seed = None if first is None else norm((first.child('init') if first.k == 'VarDecl' else first.child('rhs')).text())
                 upd = sorted({norm(c.callee or '') for c in i.child('then').walk() if c.k == 'CallExpr' and (c.callee or '').split('::')[-1] in ('crc32', 'checksum32') and len(c.args) == 3 and norm(c.args[0].text()) == 'sig'})
-                swp = any(c.k == 'CallExpr' and c.callee == 'gdstk::little_endian_swap32' for c in i.child('then').walk())
-                cmpv = any(x.k == 'BinaryOperator' and x.op == '!=' and 'file_sum + 1' in tx(x) for x in i.child('then').walk())
-                arms[int(m.group(1))] = (norm(sig.child('init').text()) if sig is not None else None, upd, swp, cmpv)
+                swp = any(c.k == 'CallExpr' and c.callee == 'gdstk::little_endian_swap32' for c in scope)
+                cmpv = any(x.k == 'BinaryOperator' and x.op in ('!=', '==') and 'file_sum + 1' in tx(x) and 'sig' in tx(x) for x in scope)
+                arms[int(m.group(1))] = (seed, upd, swp, cmpv)
     want = {1: ('crc32(0, NULL, 0)', ['crc32'], True, True), 2: ('0', ['checksum32'], True, True)}
     ctx.check(arms == want, 'R-TABLE', 'oas_validate/schemes', v.loc(), 'scheme 1 = CRC32 seeded with crc32(0, NULL, 0), scheme 2 = CHECKSUM32 seeded with 0; the result is converted to little-endian and compared with the stored word', 'validator arms: %s' % arms)
     inits = {}
